@@ -4,10 +4,10 @@ CONSTANTS
   K = 4
   MaxSteps = 10
   SeedOnOpen = TRUE
+  MetaKeepsMark = TRUE
 VIEW View
 CHECK_DEADLOCK FALSE
 INVARIANTS
   PersistedCoversIssued
-PROPERTIES
   StrictlyIncreasing
   AboveBeforeRestart
